@@ -8,11 +8,12 @@
    Part 2 is the vocabulary of property C20 (well-formed trees, one-hole contexts, defects),
    written independently of the checker's tables.
 
-   The regular expressions of LuceneCheck need the Unicode classes \w and \s.  They are not
-   generated yet, so every function takes the two predicates `is_word_char`, `is_space` as
-   parameters; `ascii_is_word_char` / `ascii_is_space` below are the restriction of the classes to
-   code points < 128, hard-coded, and are used by the correspondence harness only. *)
-Require Import Base Decimal Tree GenTree GenVisitors Visitor.
+   The regular expressions of LuceneCheck need the Unicode classes \w and \s: every function takes
+   the two predicates `is_word_char`, `is_space` as parameters (props/C20.v and the harness
+   instantiate them with Lexer.is_word_char / Lexer.is_space, built on the generated classes of
+   gen/GenChars.v).  The pattern sources themselves are generated (gen/GenCheck.v) and tied to what
+   is modelled here by `check_patterns_known`. *)
+Require Import Base Decimal Tree GenTree GenVisitors GenCheck Visitor.
 
 (* ------------------------------------------------------------------------------------------ *)
 (* Part 1 — the model                                                                          *)
@@ -72,14 +73,19 @@ Fixpoint last_opt {A} (l : list A) : option A :=
   | _ :: l' => last_opt l'
   end.
 
-(* LuceneCheck.SIMPLE_EXPR_FIELDS / FIELD_EXPR_FIELDS.
-   HARD-CODED from luqum/check.py (gen/translate.py does not emit them yet):
-     SIMPLE_EXPR_FIELDS = (tree.Boost, tree.Proximity, tree.Fuzzy, tree.Word, tree.Phrase)
-     FIELD_EXPR_FIELDS = tuple(list(SIMPLE_EXPR_FIELDS) + [tree.FieldGroup])                   *)
-Definition simple_expr_fields : list cls := [CBoost; CProximity; CFuzzy; CWord; CPhrase].
-Definition field_expr_fields : list cls := simple_expr_fields ++ [CFieldGroup].
+(* LuceneCheck.FIELD_EXPR_FIELDS (= SIMPLE_EXPR_FIELDS + FieldGroup): the generated class tuple *)
+Definition field_expr_fields : list cls := gen_field_expr_fields.
 
-(* invalid_term_chars_re = re.compile(r"[+/-]") : '+', '/', '-' (HARD-CODED from check.py) *)
+(* the three regular expressions, as modelled below; tied to the shipped pattern sources *)
+Definition modelled_field_name_re : str := [94;92;119;43;92;90]%N.        (* ^\w+\Z *)
+Definition modelled_space_re : str := [92;115]%N.                          (* \s *)
+Definition modelled_invalid_term_chars_re : str := [91;43;47;45;93]%N.     (* [+/-] *)
+Definition check_patterns_known : bool :=
+  str_eqb gen_field_name_re modelled_field_name_re &&
+  str_eqb gen_space_re modelled_space_re &&
+  str_eqb gen_invalid_term_chars_re modelled_invalid_term_chars_re.
+
+(* invalid_term_chars_re = [+/-] : the characters '+', '/', '-' *)
 Definition invalid_term_char (c : char) : bool := N.eqb c 43 || N.eqb c 47 || N.eqb c 45.
 
 (* the handler classes whose bodies are modelled in `own` below *)
@@ -99,19 +105,12 @@ Section Check.
 
   Definition zealous : bool := negb (Z.eqb zeal 0).
 
-  (* field_name_re = re.compile(r"^\w+$"), used with .match: one or more word characters, then
-     the end of the string or a final "\n" (Python's `$` matches before a trailing newline). *)
-  Fixpoint word_plus_tail (s : str) : bool :=
-    match s with
-    | [] => true
-    | c :: s' =>
-        (is_word_char c && word_plus_tail s') ||
-        (N.eqb c c_nl && match s' with [] => true | _ => false end)
-    end.
+  (* field_name_re = re.compile(r"^\w+\Z"), used with .match: the whole string is one or more word
+     characters *)
   Definition field_name_ok (s : str) : bool :=
     match s with
     | [] => false
-    | c :: s' => is_word_char c && word_plus_tail s'
+    | _ => forallb is_word_char s
     end.
 
   (* space_re.search(value) / invalid_term_chars_re.search(value) *)
@@ -213,17 +212,6 @@ Section Check.
   (* a field name: one or more word characters *)
   Definition valid_field_name (n : str) : bool :=
     match n with [] => false | _ => forallb is_word_char n end.
-
-  (* one or more word characters followed by a single "\n" *)
-  Fixpoint words_then_nl (s : str) : bool :=
-    match s with
-    | [] => false
-    | c :: s' =>
-        (N.eqb c c_nl && match s' with [] => true | _ => false end) ||
-        (is_word_char c && words_then_nl s')
-    end.
-  Definition nl_name (n : str) : bool :=
-    match n with [] => false | c :: s' => is_word_char c && words_then_nl s' end.
 
   Definition is_word (t : item) : bool := match t with Term KWord _ _ => true | _ => false end.
   Definition is_phrase (t : item) : bool := match t with Term KPhrase _ _ => true | _ => false end.
@@ -341,23 +329,7 @@ Definition msg_of_defect (k : defect) : msgkind :=
   | DMisplacedFieldGroup => MFieldGroupMisuse
   end.
 
-(* the one shape of invalid field name the shipped regular expression lets through: word
-   characters followed by one final newline *)
-Definition name_defect_hidden (is_word_char : char -> bool) (d : item) (k : defect) : bool :=
-  match k, d with
-  | DBadFieldName, SearchField _ n _ => nl_name is_word_char n
-  | _, _ => false
-  end.
-
 (* ------------------------------------------------------------------------------------------ *)
-(* \w and \s restricted to code points < 128 — HARD-CODED (the generated Unicode classes
-   cc_word / cc_space do not exist yet); used by the correspondence harness, which keeps field
-   names and values ASCII.  Checked against Python's re on 0..127. *)
-Definition ascii_is_word_char (c : char) : bool :=
-  ((48 <=? c) && (c <=? 57) || (65 <=? c) && (c <=? 90) || N.eqb c 95 || (97 <=? c) && (c <=? 122))%N.
-Definition ascii_is_space (c : char) : bool :=
-  ((9 <=? c) && (c <=? 13) || (28 <=? c) && (c <=? 32))%N.
-
 (* comparison helpers for the harness *)
 Definition outcome_eqb {A} (eqb : A -> A -> bool) (a b : outcome A) : bool :=
   match a, b with
